@@ -56,7 +56,7 @@ def exec_c10(cfg, devs):
             return [(simcf.SimCF.hdr(PORT, chan), data)]      # reply = request bytes (matches its pattern)
         return None
     dev.hooks.append(hook)
-    ex = cfh.Exec(devs, dev, time_limit=8.0, reply_menu=REPLY_MENU, needs_resending=cfg['resend'])
+    ex = cfh.Exec(devs, dev, time_limit=8.0, reply_menu=REPLY_MENU, needs_resending=cfg['resend'], policy=cfg.get('policy'))
     ex.env.on_tx = lambda idx, h, data, st: ex.log('tx', idx, h, tuple(data), st, cfh._thread_name())
     info = {'sessions': []}
 
@@ -291,6 +291,9 @@ def configs(quick):
         _cfg('reopen:tie', 'a', close_at=0.3, reopen_after=0.1, reqs2='d'),
         _cfg('reopen:1.0', 'a', timeout=1.0, close_at=0.5, reopen_after=0.2, reqs2='d'),
         _cfg('gap:ab', 'ab', gap=0.1),
+        _cfg('single:0.2:handoff', 'a', policy='handoff'),
+        _cfg('prefix:ab:handoff', 'ab', policy='handoff'),
+        _cfg('reopen:tie:eager', 'a', close_at=0.3, reopen_after=0.1, reqs2='d', policy='eager'),
         _cfg('error-reopen:0.3+0.05', 'a', close_at=0.3, reopen_after=0.05, reqs2='d', by_error=True),
         _cfg('error-reopen:1.0', 'a', timeout=1.0, close_at=0.5, reopen_after=0.2, reqs2='d', by_error=True),
         _cfg('error:0.3', 'ab', close_at=0.3, by_error=True),
